@@ -644,6 +644,7 @@ func (th *Thread) runFrame(fr *frame) {
 			if p.steps > maxSteps {
 				panic(boundExceeded{fmt.Sprintf("steps per path > %d", maxSteps)})
 			}
+			th.curIns = ins
 			if th.exec(fr, ins) {
 				return
 			}
